@@ -1,7 +1,7 @@
 (* Conv_proofs.v -- C11, progress steps of the closed loop: one fault-free run of the queued work item serves a servable
    node (its API object has pod CIDRs afterwards); one fault-free run of the work item of a ClusterCIDR whose deletion was
    requested and on which no node depends removes the entry and the object. *)
-From NIPAM Require Import Sys Geom_proofs Pool_proofs Prio_proofs Alloc_proofs Inv_proofs Sys_proofs World_proofs Complete_proofs Resv_proofs Path_proofs NoPanic_proofs Hist_proofs Progress_proofs.
+From NIPAM Require Import Sys Geom_proofs Pool_proofs Prio_proofs Alloc_proofs Inv_proofs Sys_proofs World_proofs Complete_proofs Resv_proofs Path_proofs NoPanic_proofs Hist_proofs Hist2_proofs Hist3_proofs Hist4_proofs Store_proofs Progress_proofs.
 From Coq Require Import Lia.
 Open Scope N_scope.
 
@@ -172,7 +172,7 @@ Section Round.
   (* one fault-free run of the work item of node a (no pod CIDRs, known as it is) on a world whose node feed is empty *)
   Lemma run_node_sync_quiet W m a outs :
     w_ctl W = Some m -> MapInv m -> KU m -> w_synced W = true -> w_nfeed W = [] ->
-    w_ncache W = map node_view (w_nodes W) -> NoDup (map an_name (w_nodes W)) ->
+    seq (w_ncache W) (map node_view (w_nodes W)) -> NoDup (map an_name (w_nodes W)) ->
     In a (w_nodes W) -> an_cidrs a = [] -> an_deleting a = false ->
     (exists cs m', cs <> [] /\
        fst (run_node_sync po lab W (Some (node_view a)) (an_name a) (POk :: outs)) =
@@ -182,7 +182,7 @@ Section Round.
   Proof.
     intros Em M HK Hsy Hf Hca Hnd Hin Hc Hd. unfold run_node_sync. rewrite Em.
     assert (Hfa : find_anode (an_name a) (w_nodes W) = Some a) by (apply find_anode_in_nodup; assumption).
-    assert (Hfn : find_node (an_name a) (w_ncache W) = Some (node_view a)) by (rewrite Hca; apply find_node_view; assumption).
+    assert (Hfn : find_node (an_name a) (w_ncache W) = Some (node_view a)) by (apply (find_node_seq _ (w_nodes W)); assumption).
     rewrite Hfn.
     assert (Hcanp : forall cs, can_patch W (an_name a) cs = true) by (intros cs; unfold can_patch; rewrite Hfa, Hc; reflexivity).
     destruct (sync_node po lab (svc_list (w_svc W)) (can_patch W (an_name a)) (api_same W (an_name a)) (held_cidrs (w_ncache W)) m
@@ -203,7 +203,7 @@ Section Round.
     q_ctl : exists m, w_ctl w = Some m;
     q_sync : w_synced w = true;
     q_feed : w_nfeed w = [];
-    q_cache : w_ncache w = map node_view (w_nodes w);
+    q_cache : seq (w_ncache w) (map node_view (w_nodes w));     (* the store holds the API objects, in whatever order *)
     q_names : NoDup (map an_name (w_nodes w));
     q_nodel : forall a, In a (w_nodes w) -> an_deleting a = false
   }.
@@ -214,9 +214,9 @@ Section Round.
 
   Lemma serve_one_spec w a : Quiet w -> In a (w_nodes w) -> an_cidrs a = [] ->
     let w3 := serve_one w (an_name a) in
-    Quiet w3 /\ w_ncache w3 = map node_view (w_nodes w3) /\
+    Quiet w3 /\
     ((exists cs, cs <> [] /\ w_nodes w3 = upd_anode (with_cidrs a cs) (w_nodes w)) \/
-     (w_nodes w3 = w_nodes w /\ msim (ctl_of w) (ctl_of w3) /\ refused_at po lab (ctl_of w) (held_cidrs (w_ncache w)) (an_labels a))).
+     (w_nodes w3 = w_nodes w /\ w_ncache w3 = w_ncache w /\ msim (ctl_of w) (ctl_of w3) /\ refused_at po lab (ctl_of w) (held_cidrs (w_ncache w)) (an_labels a))).
   Proof.
     intros Q Hin Hc. destruct Q as [I K (m & Em) Hsy Hf Hca Hnd Hdel].
     (* the three steps keep the structural invariants *)
@@ -230,16 +230,16 @@ Section Round.
     (* the world the work item runs on *)
     set (W1 := set_fetch (set_fetch w ((0, (an_name a, find_node (an_name a) (w_ncache w))) :: filter (fun x => negb (fst x =? 0)) (w_nfetch w)) (w_cfetch w))
                  (filter (fun x => negb (fst x =? 0)) ((0, (an_name a, find_node (an_name a) (w_ncache w))) :: filter (fun x => negb (fst x =? 0)) (w_nfetch w))) (w_cfetch w)).
-    assert (Hfn : find_node (an_name a) (w_ncache w) = Some (node_view a)) by (rewrite Hca; apply find_node_view; assumption).
+    assert (Hfn : find_node (an_name a) (w_ncache w) = Some (node_view a)) by (apply (find_node_seq _ (w_nodes w)); assumption).
     assert (Hrun : serve_one w (an_name a) = fst (step po lab (fst (run_node_sync po lab W1 (Some (node_view a)) (an_name a) [POk])) DeliverNode)).
     { unfold serve_one, run. cbn [fold_left step fst set_fetch w_nfetch w_cfetch find]. cbn [N.eqb]. rewrite Hfn. reflexivity. }
     destruct (run_node_sync_quiet W1 m a [] Em (wi_ctl w I m Em) (K m Em) Hsy Hf Hca Hnd Hin Hc (Hdel a Hin)) as [(cs & m' & Hne & Hr)|(m' & Hr & Hms & Href)].
     - (* served *)
       rewrite Hr in Hrun. cbn [step set_api set_ctl w_nfeed] in Hrun. unfold handle_nevent in Hrun.
       cbn [set_caches set_api set_ctl w_ctl w_ncache w_ccache w_nfeed w_cfeed w_nq w_cq set_queues fst W1 set_fetch] in Hrun.
-      assert (Hput : put_node (node_view (with_cidrs a cs)) (w_ncache w) = map node_view (upd_anode (with_cidrs a cs) (w_nodes w))).
-      { rewrite Hca. apply put_node_view; [exact Hnd|]. exists a. split; [exact Hin|reflexivity]. }
-      rewrite Hrun. split; [|split].
+      assert (Hput : seq (put_node (node_view (with_cidrs a cs)) (w_ncache w)) (map node_view (upd_anode (with_cidrs a cs) (w_nodes w)))).
+      { rewrite <- (put_node_view (w_nodes w) (with_cidrs a cs) Hnd); [apply put_node_seq; exact Hca|]. exists a. split; [exact Hin|reflexivity]. }
+      rewrite Hrun. split.
       + constructor; try (rewrite <- Hrun; assumption); cbn.
         * exists m'. reflexivity.
         * exact Hsy.
@@ -247,14 +247,12 @@ Section Round.
         * exact Hput.
         * rewrite upd_anode_names. exact Hnd.
         * intros x Hx. destruct (in_upd_anode _ _ x Hnd Hx) as [->|[Hx' _]]; [cbn; exact (Hdel a Hin)|exact (Hdel x Hx')].
-      + cbn. exact Hput.
       + left. exists cs. split; [exact Hne|reflexivity].
     - (* refused *)
       rewrite Hr in Hrun. cbn [step set_ctl w_nfeed W1 set_fetch] in Hrun. rewrite Hf in Hrun. cbn [fst] in Hrun.
-      rewrite Hrun. split; [|split].
+      rewrite Hrun. split.
       + constructor; try (rewrite <- Hrun; assumption); cbn; try assumption. exists m'. reflexivity.
-      + cbn. exact Hca.
-      + right. unfold ctl_of. cbn. rewrite Em. split; [reflexivity|split; [exact Hms|exact Href]].
+      + right. unfold ctl_of. cbn. rewrite Em. split; [reflexivity|split; [reflexivity|split; [exact Hms|exact Href]]].
   Qed.
 
   Definition unservedb (a : anode) : bool := match an_cidrs a with [] => true | _ => false end.
@@ -277,21 +275,21 @@ Section Round.
     let w' := fold_left serve_one (map an_name L) w in
     Quiet w' /\ (length (unserved_nodes w') <= length (unserved_nodes w))%nat /\
     ((length (unserved_nodes w') < length (unserved_nodes w))%nat \/
-     (w_nodes w' = w_nodes w /\ msim (ctl_of w) (ctl_of w') /\
+     (w_nodes w' = w_nodes w /\ w_ncache w' = w_ncache w /\ msim (ctl_of w) (ctl_of w') /\
       forall a, In a L -> exists mk, msim mk (ctl_of w') /\ refused_at po lab mk (held_cidrs (w_ncache w)) (an_labels a))).
   Proof.
     induction L as [|a L IH]; intros w Q Hnd HL; cbn [map fold_left].
-    - split; [exact Q|]. split; [apply le_n|]. right. split; [reflexivity|]. split; [apply msim_refl|intros a []].
+    - split; [exact Q|]. split; [apply le_n|]. right. split; [reflexivity|]. split; [reflexivity|]. split; [apply msim_refl|intros a []].
     - inversion Hnd as [|x l Hna HndL]; subst.
       destruct (HL a (or_introl eq_refl)) as [Hin Hc].
-      destruct (serve_one_spec w a Q Hin Hc) as (Q1 & Hca1 & Hcase).
+      destruct (serve_one_spec w a Q Hin Hc) as (Q1 & Hcase).
       assert (HL1 : forall b, In b L -> In b (w_nodes (serve_one w (an_name a))) /\ an_cidrs b = []).
       { intros b Hb. destruct (HL b (or_intror Hb)) as [Hbin Hbc]. split; [|exact Hbc].
         destruct Hcase as [(cs & _ & ->)|(-> & _)]; [|exact Hbin].
         apply in_upd_anode_old; [exact Hbin|]. cbn. intros E. apply Hna. rewrite <- E. apply in_map. exact Hb. }
       destruct (IH (serve_one w (an_name a)) Q1 HndL HL1) as (Q' & Hle & Hrest).
       split; [exact Q'|].
-      destruct Hcase as [(cs & Hne & Hnodes)|(Hnodes & Hms & Href)].
+      destruct Hcase as [(cs & Hne & Hnodes)|(Hnodes & Hcache & Hms & Href)].
       + (* a was served: the count went down and never goes up again *)
         assert (Hdec : S (length (unserved_nodes (serve_one w (an_name a)))) = length (unserved_nodes w)).
         { unfold unserved_nodes. rewrite Hnodes. apply (filter_upd_anode_served (with_cidrs a cs) (w_nodes w) a (q_names w Q) Hin eq_refl).
@@ -300,9 +298,8 @@ Section Round.
         split; [lia|]. left. lia.
       + assert (Hun : unserved_nodes (serve_one w (an_name a)) = unserved_nodes w) by (unfold unserved_nodes; rewrite Hnodes; reflexivity).
         rewrite Hun in Hle, Hrest. split; [exact Hle|].
-        destruct Hrest as [Hlt|(Hn' & Hms' & Hall)]; [left; exact Hlt|]. right.
-        assert (Hcache : w_ncache (serve_one w (an_name a)) = w_ncache w) by (rewrite Hca1, Hnodes; symmetry; exact (q_cache w Q)).
-        split; [congruence|]. split; [eapply msim_trans; eassumption|].
+        destruct Hrest as [Hlt|(Hn' & Hc' & Hms' & Hall)]; [left; exact Hlt|]. right.
+        split; [congruence|]. split; [congruence|]. split; [eapply msim_trans; eassumption|].
         intros b [<-|Hb].
         * exists (ctl_of w). split; [eapply msim_trans; eassumption|exact Href].
         * destruct (Hall b Hb) as (mk & A & B). exists mk. split; [exact A|]. rewrite Hcache in B. exact B.
@@ -330,12 +327,10 @@ Section Round.
     - apply NoDup_map_filter. exact (q_names w Q).
     - intros a Ha. unfold unserved_nodes in Ha. apply filter_In in Ha. destruct Ha as [Ha Hu]. split; [exact Ha|].
       unfold unservedb in Hu. destruct (an_cidrs a); [reflexivity|discriminate].
-    - split; [exact Q'|]. destruct Hcase as [Hlt|(Hn & _ & Hall)]; [left; exact Hlt|]. right.
+    - split; [exact Q'|]. destruct Hcase as [Hlt|(Hn & Hcache & _ & Hall)]; [left; exact Hlt|]. right.
       intros a Ha Hc. rewrite Hn in Ha.
       assert (Hau : In a (unserved_nodes w)) by (unfold unserved_nodes; apply filter_In; split; [exact Ha|unfold unservedb; rewrite Hc; reflexivity]).
       destruct (Hall a Hau) as (mk & A & B). exists mk. split; [exact A|].
-      assert (Hcache : w_ncache (fold_left serve_one (map an_name (unserved_nodes w)) w) = w_ncache w)
-        by (rewrite (q_cache _ Q'), Hn; symmetry; exact (q_cache w Q)).
       rewrite Hcache. exact B.
   Qed.
 
